@@ -15,11 +15,12 @@ PLAIN_META = ['status', 'note', 'confidenceScore']
 
 class Style:
     def __init__(self, quote='"', reverse_attrs=False, explicit_defaults=False,
-                 comments=False, charrefs=False, indent=True, self_close=True):
+                 comments=False, charrefs=False, indent=True, self_close=True, tagcomments=False):
         self.quote = quote
         self.reverse_attrs = reverse_attrs
         self.explicit_defaults = explicit_defaults
         self.comments = comments
+        self.tagcomments = tagcomments      # comments / processing instructions whose text looks like markup
         self.charrefs = charrefs      # write non-ASCII as &#N;
         self.indent = indent
         self.self_close = self_close
@@ -97,6 +98,10 @@ class W:
         self.level += 1
         if self.st.comments:
             self.line(f'<!-- inside {tag} -->')
+        if self.st.tagcomments:
+            self.line('<!-- every <Lexicon> needs an id; old: <Lexicon id="zz" version="9" label="no">'
+                      ' <Extends id="qq" version="7"/> <LexiconExtension id="zx" version="8"> -->')
+            self.line('<?note <Lexicon id="pi" version="0"> <Extends id="pq" version="1"/> ?>')
 
     def close(self, tag):
         self.level -= 1
